@@ -137,6 +137,23 @@ func oracleC08(f *sessionFam, w *World, res *Result) []Violation {
 					if strings.Contains(flagsOf(st), "U") && len(ends) > 0 && f.endAt-ends[0].T > 50*time.Millisecond {
 						l.add("not-upgrading-after-failure", "", fmt.Sprintf("%s [%s]: candidate ended at %v but the session is still marked upgrading at %v", a, ctx, ends[0].T, f.endAt))
 					}
+					// "fully usable on its original transport": once the candidate is gone (and no other candidate came),
+					// the 100 ms fast-upgrade tick must be gone too - polls stay pending until there is something to send
+					if !laterCand && sp.Upgrade == "" && len(ends) > 0 {
+						n := 0
+						var first Ev
+						for _, e := range w.evs(a, "c-noop") {
+							if e.T > ends[0].T+250*time.Millisecond && e.T < f.endAt {
+								if n == 0 {
+									first = e
+								}
+								n++
+							}
+						}
+						if n >= 2 {
+							l.add("no-upgrade-tick-after-failure", "", fmt.Sprintf("%s [%s]: candidate ended at %v, yet %d polls were answered with an unsolicited noop afterwards (first at %v): the fast-upgrade tick is still running", a, ctx, ends[0].T, n, first.T))
+						}
+					}
 					ut := time.Duration(f.sc.Opts.UpgradeTimeoutMs) * time.Millisecond
 					if ut == 0 {
 						ut = 10 * time.Second
